@@ -9,11 +9,6 @@ From TskVerif Require Import Base.Common C06.Model C06.BasicProofs C06.ListFacts
 Import ListNotations.
 Open Scope Z_scope.
 
-(* SPEC: number of edge ids whose row covers x *)
-Definition covb (ts : tseq) (x : Z) (e : Z) : bool :=
-  match get (ts_edges ts) e with Ok ed => covers ed x | _ => false end.
-Definition num_edges_ids (ts : tseq) (x : Z) : Z := zlen (filter (covb ts x) (zseq (num_edges ts))).
-
 Lemma count_identity (a b : Z -> bool) l :
   zlen (filter b l) = zlen (filter a l) - zlen (filter (fun e => a e && negb (b e)) l)
                       + zlen (filter (fun e => b e && negb (a e)) l).
@@ -134,9 +129,9 @@ Proof.
     apply zn_In. rewrite (v_I_len ts V). exact Hj.
 Qed.
 
-Lemma num_edges_outside x : x < 0 \/ ts_L ts <= x -> num_edges_ids ts x = 0.
+Lemma num_edges_outside x : x < 0 \/ ts_L ts <= x -> num_edges_at ts x = 0.
 Proof.
-  intros Hx. unfold num_edges_ids. rewrite filter_none; [reflexivity|].
+  intros Hx. unfold num_edges_at. rewrite filter_none; [reflexivity|].
   intros e _. unfold covb. destruct (get (ts_edges ts) e) as [ed| | |] eqn:G; try reflexivity.
   pose proof (v_edge ts V _ _ G). unfold covers. lia.
 Qed.
@@ -153,11 +148,11 @@ Lemma transition_ne t x y es_r es_i (f : edge -> bool) t1 t2 :
   (forall e ed, get (ts_edges ts) e = Ok ed -> covers ed y = true -> covers ed x = false ->
                 In e es_i /\ f ed = true) ->
   wloop ts sel_rem es_r t = Ok t1 -> wloop ts (sel_ins f) es_i t1 = Ok t2 ->
-  t_num_edges t = num_edges_ids ts x -> t_num_edges t2 = num_edges_ids ts y.
+  t_num_edges t = num_edges_at ts x -> t_num_edges t2 = num_edges_at ts y.
 Proof.
   intros Nr Ni Rr Ri R1 R2 I1 I2 W1 W2 E.
   apply wloop_ne in W1. apply wloop_ne in W2. rewrite W2, W1, E, sum_rem, sum_ins by exact Rr.
-  unfold num_edges_ids.
+  unfold num_edges_at.
   rewrite (count_identity (covb ts x) (covb ts y)).
   rewrite (NoDup_count es_r (fun e => covb ts x e && negb (covb ts y e)) (num_edges ts) Nr).
   2:{ intros e. split.
